@@ -156,7 +156,33 @@ type fuzzer struct {
 	slow  time.Duration
 }
 
+// clampLens bounds every 32-bit msgpack length/count header in an input to < 2^20: ugorji/codec, reading from a
+// stream as go-libp2p-gorpc does, allocates what a bin32/str32/array32/map32 header announces before it looks
+// for the bytes (observed: a 20-byte random input announcing 2.6 GB made the process grow to 9.8 GB RSS).
+// That is an amplification, not a crash; feeding it would starve the shared machine. The clamp is applied to
+// every input of the msgpack decoders, whatever its class, and is stated in the evidence.
+func clampLens(b []byte) []byte {
+	var out []byte
+	for i := 0; i+4 < len(b); i++ {
+		switch b[i] {
+		case 0xc6, 0xc9, 0xdb, 0xdd, 0xdf:
+			if b[i+1] != 0 || b[i+2] > 0x0f {
+				if out == nil {
+					out = append([]byte{}, b...)
+					b = out
+				}
+				b[i+1] = 0
+				b[i+2] &= 0x0f
+			}
+		}
+	}
+	return b
+}
+
 func (f *fuzzer) feed(d decoder, class string, in []byte) {
+	if d.fmt == "msgpack" || d.fmt == "snapshot" {
+		in = clampLens(in)
+	}
 	t0 := time.Now()
 	o, detail := outcome(d, in)
 	if dt := time.Since(t0); dt > f.slow {
